@@ -2,9 +2,12 @@ package ast
 
 import (
 	"iter"
+	"slices"
+	"strings"
 	"sync"
 
 	"github.com/elliotchance/orderedmap/v3"
+	"github.com/mitchellh/hashstructure/v2"
 	"gopkg.in/yaml.v3"
 
 	"github.com/go-task/task/v3/errors"
@@ -93,6 +96,28 @@ func (vars *Vars) Values() iter.Seq[Var] {
 		return func(yield func(Var) bool) {}
 	}
 	return vars.om.Values()
+}
+
+// Hash implements the hashstructure.Hashable interface. Vars has no exported
+// fields, so without it every set of variables would hash to the same value
+// and two calls of a "run: when_changed" task that differ only in a variable
+// that reaches the task's env, a deferred command or the vars of a sub-call
+// would be treated as the same call.
+func (vars *Vars) Hash() (uint64, error) {
+	if vars == nil || vars.om == nil {
+		return 0, nil
+	}
+	type entry struct {
+		Key   string
+		Value Var
+	}
+	entries := make([]entry, 0, vars.Len())
+	for k, v := range vars.All() {
+		entries = append(entries, entry{Key: k, Value: v})
+	}
+	// The hash identifies the set of values, not the order of insertion
+	slices.SortFunc(entries, func(a, b entry) int { return strings.Compare(a.Key, b.Key) })
+	return hashstructure.Hash(entries, hashstructure.FormatV2, nil)
 }
 
 // ToCacheMap converts Vars to an unordered map containing only the static
